@@ -54,7 +54,7 @@ class EdMod(xitorch.EditableModule):
         raise KeyError(methodname)
 
 
-def ift1d(cx, entry="rootfinder", placement="explicit", second=True, bck_method=None, fix=False):
+def ift1d(cx, entry="rootfinder", placement="explicit", second=True, bck_method=None, fix=False, warm=None, y0_grad=True):
     """f(y; a,b,c) = a*y^2 + b*y - c with c := a*ys^2 + b*ys (so ys is a root).  fix: the root, the initial guess, the
     non-differentiable tensor and the cotangent are fixed rationals (a, b stay symbolic) - used where the second-order claims
     through solve's own backward are beyond the solver with everything symbolic"""
@@ -66,6 +66,12 @@ def ift1d(cx, entry="rootfinder", placement="explicit", second=True, bck_method=
     y0 = cx.const(torch.tensor([0.5], dtype=torch.float64)).requires_grad_() if fix else cx.sym("y0", (1,), requires_grad=True)
     method, seen = _planted(ys)
     kw = {"method": method, "myoption": 3}
+    if warm is not None:
+        # warm start: a BUILT-IN method started exactly on the root (its zero-residual early exit returns at once)
+        y0 = ys.detach().clone()
+        if y0_grad:
+            y0.requires_grad_()
+        kw = {"method": warm}
     if bck_method is not None:
         kw["bck_options"] = {"method": bck_method}
     # a tensor parameter that does not require grad
@@ -100,8 +106,11 @@ def ift1d(cx, entry="rootfinder", placement="explicit", second=True, bck_method=
         def obj(y_, a_, b_, c_, k, nd):
             return ((a_ * y_ * y_ * y_ / 3 + b_ * y_ * y_ / 2 - c_ * y_) * k + nd * 0).sum()
         y = minimize(obj, y0, params=params, **kw)
-    cx.claim_true("custom method called without grad and with the extra option",
-                  seen.get("grad_enabled") is False and seen.get("kw", {}).get("myoption") == 3, detail=str(seen))
+    if warm is None:
+        cx.claim_true("custom method called without grad and with the extra option",
+                      seen.get("grad_enabled") is False and seen.get("kw", {}).get("myoption") == 3, detail=str(seen))
+    else:
+        cx.claim_true("the result is a new tensor, not the caller's initial guess", y is not y0)
     cx.claim_eq("value", y, ys)
     # reference: two Newton steps from the detached solution, plain torch
     la, lb, lc = leaves
@@ -115,7 +124,9 @@ def ift1d(cx, entry="rootfinder", placement="explicit", second=True, bck_method=
     for _ in range(2):
         yr = yr - fref(yr) / dfref(yr)
     g = cx.const(torch.tensor([1.25], dtype=torch.float64)) if fix else cx.sym("g", (1,))
-    g1 = grads((g * y).sum(), leaves + [y0], create_graph=second)
+    g1 = grads((g * y).sum(), leaves + ([y0] if y0.requires_grad else []), create_graph=second)
+    if not y0.requires_grad:
+        g1 = list(g1) + [None]
     g2 = grads((g * yr).sum(), leaves, create_graph=second)
     for nm, x, z in zip("abc", g1, g2):
         cx.claim_eq("d/d" + nm, x, z)
@@ -209,6 +220,14 @@ def configs(tier):
         placement="explicit_nd_first", second=True, bck_method="custom_exactsolve", fix=True)
     add("ift1d/rootfinder/nnmodule/2nd/bck_custom_exactsolve/fixed_root_cotangent", ift1d, entry="rootfinder", placement="nnmodule",
         second=True, bck_method="custom_exactsolve", fix=True)
+    # warm start exactly on the root with the built-in methods (zero-residual early exit of the root solver)
+    for m in ("broyden1", "newton", "linearmixing"):
+        add("ift1d/rootfinder/explicit/warm_start_on_root/%s/2nd" % m, ift1d, entry="rootfinder", placement="explicit", second=True,
+            warm=m)
+    add("ift1d/rootfinder/explicit/warm_start_on_root/broyden1/y0_constant", ift1d, entry="rootfinder", placement="explicit",
+        second=False, warm="broyden1", y0_grad=False)
+    add("ift1d/equilibrium/explicit/warm_start_on_root/broyden2/2nd", ift1d, entry="equilibrium", placement="explicit", second=True,
+        warm="broyden2")
     add("ift1d/rootfinder/nnmodule/2nd", ift1d, entry="rootfinder", placement="nnmodule", second=True)
     add("ift1d/rootfinder/editable/2nd", ift1d, entry="rootfinder", placement="editable", second=True)
     add("ift1d/rootfinder/explicit/bck_custom_exactsolve", ift1d, entry="rootfinder", placement="explicit", second=False,
